@@ -1,6 +1,9 @@
 package check
 
 import (
+	"fmt"
+	"time"
+
 	"verif/harness/internal/gen"
 )
 
@@ -8,6 +11,27 @@ import (
 func C08(c *Ctx) int {
 	fs, _ := LoadFindings()
 	ps := gen.AnswerShapes()
+	// level M: TaskDo.tla -- Do / process / request goroutine of one task request over every
+	// interleaving of 3 callers with cancellation and time-out, in the structure the code has
+	// now (guarded send) and in the pinned structure (bare send: TLC's stuck caller = F9)
+	for _, g := range []string{"TRUE", "FALSE"} {
+		cfg := fmt.Sprintf("SPECIFICATION Spec\nCONSTANTS\n  Callers = {\"a\", \"b\", \"c\"}\n  GuardedSend = %s\n  MayCancel = TRUE\n  MayTimeout = TRUE\nINVARIANTS TypeOK EffectiveIsACaller FirstSenderWins OneResponse NoStuckCaller\nPROPERTIES AtMostOneEffective CallersReturn\nCHECK_DEADLOCK TRUE\n", g)
+		res, err := RunTLC(c.sub("taskdo"+g), "TaskDo", cfg, TLCOpts{Workers: 4, Timeout: 5 * time.Minute})
+		if err != nil {
+			c.Infraf("TaskDo.tla: %v", err)
+			continue
+		}
+		if g == "TRUE" {
+			if !res.OK {
+				c.Infraf("TaskDo.tla (guarded send) is violated: %s", res.Violated)
+			}
+			c.States += res.Distinct
+			c.Transitions += res.Generated
+			c.Extra["taskdo_states"] = res.Distinct
+		} else {
+			c.Extra["pinned_structure_counterexample_found_by_TLC"] = res.Violated
+		}
+	}
 	// the product of answer kinds x payloads x follow-up calls is large: the quick
 	// tier samples it by TLC random simulation, the thorough tier samples deeper
 	mr, sim := 2, 1500
